@@ -6,7 +6,7 @@ import os
 from typing import Any, Optional
 
 from .constfold import Folder, NotConstant
-from .report import AnalysisError
+from .report import AnalysisError, UnprovenScope
 from .srcmodel import ClassInfo, FuncInfo, Program
 from .terms import Evaluator, Summary, show
 
@@ -43,7 +43,7 @@ class Ctx:
         self._touched_funcs.add(f.qual)
         s = self.ev.summary(f)
         if s.unsupported:
-            raise AnalysisError(f"{f.qual} uses constructs outside the analysed subset: {s.unsupported}")
+            raise UnprovenScope(f.qual, f.module.path, s.unsupported)
         return s
 
     def specialise(self, f: FuncInfo, args: dict) -> Summary:
